@@ -122,6 +122,16 @@ func c10cases(tier string) []c10case {
 					cs = append(cs, c10case{host, kinds, []string{"p", "d1", "d1", "d1", "d1"}, "nowaitall"})
 				}
 			}
+			// the host's first answer is an ERROR whose handler asks for a retry: the same token requests the task again
+			// and waits for its answer a second time — its boundary events react to what arrives during THAT wait too
+			if host == "task" {
+				cs = append(cs, c10case{host, kinds, []string{"p", "r", "d1", "a"}, "wait"})
+				cs = append(cs, c10case{host, kinds, []string{"p", "r", "r", "d1", "d1", "a"}, "wait"})
+				cs = append(cs, c10case{host, kinds, []string{"p", "d1", "r", "d1", "a"}, "wait"})
+				if nb == 2 {
+					cs = append(cs, c10case{host, kinds, []string{"p", "r", "d2", "d1", "a"}, "wait"})
+				}
+			}
 			// enforced schedules
 			cs = append(cs, c10case{host, kinds, []string{"p", "a", "d1"}, "hold-forward"})
 			cs = append(cs, c10case{host, kinds, []string{"p", "d1", "a"}, "hold-listener"})
@@ -316,6 +326,12 @@ func c10run(out *rec.Out, c c10case, stats map[string]int) {
 				ok = answer("P", false)
 			case "a":
 				answer(hostTask, false)
+			case "r":
+				if q := find(hostTask); q != nil {
+					in.AnswerErr(q, 1, 5) // RetryMode, up to 5 times
+				} else {
+					in.Note("obs norequest %s", hostTask)
+				}
 			default:
 				deliver(a)
 			}
